@@ -198,16 +198,6 @@ theorem le_insert_of_ok {t : Tab} {e : Key × Rec} (h : entryOk t e = true) : Le
   · subst_vars; exact ⟨e.2, rfl, (entryOk_iff t e).1 h r hr⟩
   · exact ⟨r, hr, RecLe.refl r⟩
 
-/-- an accepted memory batch: every key ends at its old record or at one of the (checked) entries -/
-theorem le_insertAll_of_ok {t : Tab} {es : List (Key × Rec)} (h : es.all (entryOk t) = true) :
-    Le t (insertAll t es) := by
-  intro k r hr
-  rcases lookup_insertAll es t k with h' | ⟨a, ha, h'⟩
-  · exact ⟨r, h'.trans hr, RecLe.refl r⟩
-  · refine ⟨a, h', ?_⟩
-    have := List.all_eq_true.1 h (k, a) ha
-    exact (entryOk_iff t (k, a)).1 this r hr
-
 namespace Mem
 
 theorem putV_le (t : Tab) (k : Key) (v : Nat) (x : Val) : Le t (putV t k v x).1 := by
@@ -227,10 +217,167 @@ theorem put_le (t : Tab) (k : Key) (x : Val) : Le t (put t k x).1 := by
   · exact Le.refl t
   · exact putV_le _ _ _ _
 
+/-- `put_with_version` as a partial function on tables: `none` = refused -/
+def putV? (t : Tab) (e : Key × Rec) : Option Tab :=
+  match putV t e.1 e.2.1 e.2.2 with
+  | (t', .ok) => some t'
+  | _ => none
+
+/-- reference semantics of a batch: its entries as a sequence of `put_with_version` calls -/
+def seqRun : Tab → List (Key × Rec) → Option Tab
+  | t, [] => some t
+  | t, e :: es =>
+    match putV? t e with
+    | some t' => seqRun t' es
+    | none => none
+
+theorem putV?_eq (t : Tab) (e : Key × Rec) :
+    putV? t e = (match lookup t e.1 with
+      | none => some (insert t e.1 e.2)
+      | some (v0, x0) =>
+        if e.2.1 < v0 then none
+        else if e.2.1 = v0 then (if x0 = e.2.2 then some t else none)
+        else some (insert t e.1 e.2)) := by
+  unfold putV? putV
+  cases lookup t e.1 with
+  | none => rfl
+  | some r0 =>
+    obtain ⟨v0, x0⟩ := r0
+    simp only []
+    by_cases h1 : e.2.1 < v0
+    · simp [h1]
+    · by_cases h2 : e.2.1 = v0
+      · by_cases h3 : x0 = e.2.2 <;> simp [h2, h3]
+      · simp [h1, h2]
+
+theorem seqRun_snoc (t : Tab) (es : List (Key × Rec)) (e : Key × Rec) :
+    seqRun t (es ++ [e]) = (match seqRun t es with | some T => putV? T e | none => none) := by
+  induction es generalizing t with
+  | nil => simp only [List.nil_append, seqRun]; cases putV? t e <;> rfl
+  | cons e0 es ih =>
+    simp only [List.cons_append, seqRun]
+    cases putV? t e0 with
+    | none => rfl
+    | some t' => exact ih t'
+
+theorem putV?_le {t t' : Tab} {e : Key × Rec} (h : putV? t e = some t') : Le t t' := by
+  have := putV_le t e.1 e.2.1 e.2.2
+  unfold putV? at h
+  generalize putV t e.1 e.2.1 e.2.2 = p at h this
+  obtain ⟨t1, r⟩ := p
+  cases r <;> simp at h
+  subst h; exact this
+
+theorem seqRun_le {t T : Tab} {es : List (Key × Rec)} (h : seqRun t es = some T) : Le t T := by
+  induction es generalizing t with
+  | nil => simp only [seqRun] at h; cases h; exact Le.refl _
+  | cons e es ih =>
+    simp only [seqRun] at h
+    cases hp : putV? t e with
+    | none => rw [hp] at h; cases h
+    | some t' => rw [hp] at h; exact (putV?_le hp).trans (ih h)
+
+/-- inserting all entries in order gives, key by key, the table the sequence of accepted
+    `put_with_version` calls gives (a same-version entry re-inserts the record that is there) -/
+theorem seqRun_lookup {es : List (Key × Rec)} {t0 T0 T : Tab} (h0 : ∀ k, lookup t0 k = lookup T0 k)
+    (h : seqRun T0 es = some T) : ∀ k, lookup (insertAll t0 es) k = lookup T k := by
+  induction es generalizing t0 T0 with
+  | nil => simp only [seqRun] at h; cases h; exact h0
+  | cons e es ih =>
+    simp only [seqRun] at h
+    cases hp : putV? T0 e with
+    | none => rw [hp] at h; cases h
+    | some T1 =>
+      rw [hp] at h
+      rw [insertAll_cons]
+      refine ih ?_ h
+      intro k
+      rw [lookup_insert]
+      rw [putV?_eq] at hp
+      cases hl : lookup T0 e.1 with
+      | none =>
+        rw [hl] at hp; cases hp
+        rw [lookup_insert, h0 k]
+      | some r0 =>
+        obtain ⟨v0, x0⟩ := r0
+        rw [hl] at hp
+        simp only [] at hp
+        split at hp
+        · cases hp
+        · split at hp
+          · split at hp
+            · cases hp
+              rename_i hv hx
+              split
+              · subst_vars; rw [hl]
+              · exact h0 k
+            · cases hp
+          · cases hp; rw [lookup_insert, h0 k]
+
+theorem olookup_insert {α : Type} (st t : AL α) (k k' : Key) (a : α) :
+    olookup (insert st k a) t k' = if k = k' then some a else olookup st t k' := by
+  by_cases h : k = k' <;> simp [olookup, lookup_insert, h]
+
+theorem foldl_checkStep_none (t : Tab) (es : List (Key × Rec)) : es.foldl (checkStep t) none = none := by
+  induction es with
+  | nil => rfl
+  | cons e es ih => simpa [List.foldl, checkStep] using ih
+
+/-- the check loop of the repaired `put_batch` accepts exactly when the sequential reference does -/
+theorem check_fold (t : Tab) (es : List (Key × Rec)) (st T : Tab)
+    (h : ∀ k, olookup st t k = lookup T k) :
+    (es.foldl (checkStep t) (some st)).isSome = (seqRun T es).isSome := by
+  induction es generalizing st T with
+  | nil => rfl
+  | cons e es ih =>
+    simp only [List.foldl, seqRun]
+    rw [putV?_eq]
+    simp only [checkStep, h e.1]
+    have hins : ∀ k, olookup (insert st e.1 e.2) t k = lookup (insert T e.1 e.2) k := by
+      intro k; rw [olookup_insert, lookup_insert, h k]
+    cases lookup T e.1 with
+    | none => exact ih _ _ hins
+    | some r0 =>
+      obtain ⟨v0, x0⟩ := r0
+      simp only []
+      split
+      · rw [foldl_checkStep_none]
+      · split
+        · split
+          · exact ih _ _ h
+          · rw [foldl_checkStep_none]
+        · exact ih _ _ hins
+
+theorem le_congr_right {a b b' : Tab} (h : ∀ k, lookup b k = lookup b' k) (hl : Le a b) : Le a b' := by
+  intro k r hr
+  obtain ⟨r', h1, h2⟩ := hl k r hr
+  exact ⟨r', by rw [← h k]; exact h1, h2⟩
+
+/-- the repaired memory `put_batch` = the sequence of `put_with_version` calls, all or nothing -/
+theorem batch_spec (t : Tab) (es : List (Key × Rec)) :
+    (seqRun t es = none ∧ batch t es = (t, .mismatch)) ∨
+    (∃ T, seqRun t es = some T ∧ batch t es = (insertAll t es, .ok) ∧
+      ∀ k, lookup (insertAll t es) k = lookup T k) := by
+  have hc := check_fold t es [] t (fun _ => rfl)
+  unfold batch
+  cases hs : seqRun t es with
+  | none =>
+    left
+    rw [hs] at hc
+    cases hf : es.foldl (checkStep t) (some []) with
+    | none => exact ⟨rfl, rfl⟩
+    | some _ => rw [hf] at hc; cases hc
+  | some T =>
+    right
+    rw [hs] at hc
+    cases hf : es.foldl (checkStep t) (some []) with
+    | none => rw [hf] at hc; cases hc
+    | some _ => exact ⟨T, rfl, rfl, seqRun_lookup (fun _ => rfl) hs⟩
+
 theorem batch_le (t : Tab) (es : List (Key × Rec)) : Le t (batch t es).1 := by
-  unfold batch; split
-  · exact le_insertAll_of_ok (by assumption)
-  · exact Le.refl t
+  rcases batch_spec t es with ⟨_, h⟩ | ⟨T, hs, h, hl⟩
+  · rw [h]; exact Le.refl _
+  · rw [h]; exact le_congr_right (fun k => (hl k).symm) (seqRun_le hs)
 
 theorem step_le (t : Tab) (op : Op) : Le t (step t op).1 := by
   cases op <;> simp only [step] <;> first | exact Le.refl t | exact putV_le _ _ _ _ | exact put_le _ _ _ | exact batch_le _ _
